@@ -462,9 +462,10 @@ class Calibrator(BaseSeedable):
                         self.n_sampled_params,
                         self.convergence_precision,
                     )
-                    if converged and self.verbose:
-                        print("\nCONVERGENCE CHECK:")
-                        print("Achieved convergence loss, stopping search.")
+                    if converged:
+                        if self.verbose:
+                            print("\nCONVERGENCE CHECK:")
+                            print("Achieved convergence loss, stopping search.")
                         break
 
                 if self.saving_folder is not None:
